@@ -111,3 +111,39 @@ package pmm
 //@   at return 2: use uint64((blockIndex<<6)+blockOffset) < nfr(pool(alloc, poolIndex))
 //@   at return 2: use cntFlip(old(bmc(pool(alloc, poolIndex))), bmc(pool(alloc, poolIndex)), bmb(pool(alloc, poolIndex)), uint64((blockIndex<<6)+blockOffset), nfr(pool(alloc, poolIndex)))
 //@   at return 2: use forall(q, int, cntSame(old(bmc(pool(alloc, q))), bmc(pool(alloc, q)), bmb(pool(alloc, q)), bmb(pool(alloc, q)), nfr(pool(alloc, q))))
+
+// markFrame flips the bit of a frame that is currently in the opposite state
+//@ func (alloc *BitmapAllocator) markFrame(poolIndex int, frame mm.Frame, flag markAs)
+//@   property C01 C03
+//@   requires wfAlloc(alloc)
+//@   requires pre: poolIndex < 0 || (poolIndex < len(alloc.pools) && frame >= pool(alloc, poolIndex).startFrame && (frame <= pool(alloc, poolIndex).endFrame ==> ((flag == markFree) <==> held(pool(alloc, poolIndex), frame))))
+//@   modifies alloc.reservedPages, framePool.freeCount, elems(uint64)
+//@   ensures layout: layoutSame(alloc)
+//@   ensures wfp: forall(i, int, 0 <= i && i < len(alloc.pools) ==> wfPool(pool(alloc, i)))
+//@   ensures wfa: forall(i, int, j, int, 0 <= i && i < j && j < len(alloc.pools) ==> apart(pool(alloc, i), pool(alloc, j)))
+//@   ensures wf: wfAlloc(alloc)
+//@   ensures noop: poolIndex < 0 || frame > old(pool(alloc, poolIndex).endFrame) ==> unchanged(alloc)
+//@   ensures flipped: poolIndex >= 0 && frame <= pool(alloc, poolIndex).endFrame ==> (held(pool(alloc, poolIndex), frame) <==> flag != markFree) && othersSame(alloc, poolIndex, frame)
+//@   ensures counts: poolIndex >= 0 && frame <= pool(alloc, poolIndex).endFrame ==> pool(alloc, poolIndex).freeCount == ite(flag == markFree, old(pool(alloc, poolIndex).freeCount) + 1, old(pool(alloc, poolIndex).freeCount) - 1) && alloc.reservedPages == ite(flag == markFree, old(alloc.reservedPages) - 1, old(alloc.reservedPages) + 1)
+//@   at return: inst poolIndex
+//@   at return: use poolIndex >= 0 && frame <= old(pool(alloc, poolIndex).endFrame) ==> cntFlip(old(bmc(pool(alloc, poolIndex))), bmc(pool(alloc, poolIndex)), bmb(pool(alloc, poolIndex)), uint64(frame - pool(alloc, poolIndex).startFrame), nfr(pool(alloc, poolIndex)))
+//@   at return: use poolIndex >= 0 ==> cntLe(bmc(pool(alloc, poolIndex)), bmb(pool(alloc, poolIndex)), nfr(pool(alloc, poolIndex))) && cntLe(old(bmc(pool(alloc, poolIndex))), bmb(pool(alloc, poolIndex)), nfr(pool(alloc, poolIndex)))
+//@   at return: use forall(q, int, cntSame(old(bmc(pool(alloc, q))), bmc(pool(alloc, q)), bmb(pool(alloc, q)), bmb(pool(alloc, q)), nfr(pool(alloc, q))))
+
+// bit g of pool q now equals its value at function entry, except that the bits of pool p for the
+// frames lo..hi-1 are set (reserved)
+//@ pred bitsSetRange(a *BitmapAllocator, p int, lo mm.Frame, hi mm.Frame) = forall(q, int, g, uint64, 0 <= q && q < len(a.pools) && g < nfr(pool(a, q)) ==> bitOf(bmc(pool(a, q)), bmb(pool(a, q)), g) == ite(q == p && pool(a, p).startFrame + mm.Frame(g) >= lo && pool(a, p).startFrame + mm.Frame(g) < hi, 1, old(bitOf(bmc(pool(a, q)), bmb(pool(a, q)), g))))
+
+//@ func (alloc *BitmapAllocator) reserveKernelFrames()
+//@   property C01 C03
+//@   requires wfAlloc(alloc) && bootMemAllocator.kernelStartFrame <= bootMemAllocator.kernelEndFrame && bootMemAllocator.kernelEndFrame < 0x10000000000000
+//@   requires inside: forall(i, int, 0 <= i && i < len(alloc.pools) && inPool(pool(alloc, i), bootMemAllocator.kernelStartFrame) ==> bootMemAllocator.kernelEndFrame <= pool(alloc, i).endFrame)
+//@   requires free: forall(i, int, f, mm.Frame, 0 <= i && i < len(alloc.pools) && inPool(pool(alloc, i), f) && f >= bootMemAllocator.kernelStartFrame && f <= bootMemAllocator.kernelEndFrame ==> !held(pool(alloc, i), f))
+//@   modifies alloc.reservedPages, framePool.freeCount, elems(uint64)
+//@   ensures layout: layoutSame(alloc)
+//@   ensures wf: wfAlloc(alloc)
+//@   ensures reserved: forall(i, int, 0 <= i && i < len(alloc.pools) && inPool(pool(alloc, i), bootMemAllocator.kernelStartFrame) ==> bitsSetRange(alloc, i, bootMemAllocator.kernelStartFrame, bootMemAllocator.kernelEndFrame + 1))
+//@   ensures nopool: forall(i, int, 0 <= i && i < len(alloc.pools) ==> !inPool(pool(alloc, i), bootMemAllocator.kernelStartFrame)) ==> unchanged(alloc)
+//@   loop 1 (frame <= bootMemAllocator.kernelEndFrame) invariant frame >= bootMemAllocator.kernelStartFrame && frame <= bootMemAllocator.kernelEndFrame + 1 && layoutSame(alloc) && wfAlloc(alloc)
+//@   loop 1 invariant done: (poolIndex < 0 ==> unchanged(alloc)) && (poolIndex >= 0 ==> bitsSetRange(alloc, poolIndex, bootMemAllocator.kernelStartFrame, frame))
+//@   at return: inst poolIndex
